@@ -30,6 +30,7 @@ from gevent.ssl import SSLSocket, SSLError, create_default_context
 
 from slimta import logging
 from . import ConnectionLost, BadReply
+from .reply import code_pattern
 
 try:
     from gevent.ssl import SSLWantReadError
@@ -181,9 +182,12 @@ class IO(object):
         assert body is not None
         assert code is not None
         try:
-            return code.decode('ascii'), body.decode('utf-8')
+            code_str, body_str = code.decode('ascii'), body.decode('utf-8')
         except UnicodeDecodeError:
             raise BadReply(b'\r\n'.join(message_lines))
+        if not code_pattern.match(code_str):
+            raise BadReply(b'\r\n'.join(message_lines))
+        return code_str, body_str
 
     def recv_line(self):
         while True:
